@@ -21,14 +21,14 @@ def Claims (e : Env) (as : State) : Pl → Prop
   | .cv x _ => Bcast (cfgOf e) as x.frm (cvItem x) ∧ cvItem x ∈ (as.nodes x.frm).known
   | .prepReq x p => x.frm = e.primary x.h x.v ∧ ⟨x.h, x.v, p⟩ ∈ (as.nodes x.frm).myPreps ∧ TableOK e p x.h x.v x.frm
   | .prepResp x _ => PreparedAt as x.frm x.h x.v
-  | .commit x sb => sb ∈ (as.nodes x.frm).myCommits ∧ sb.h = x.h
+  | .commit x sb => sb ∈ (as.nodes x.frm).myCommits ∧ sb.h = x.h ∧ sb.v = x.v
   | .recReq _ => True
   | .recMsg x r =>
       (∀ cvp ∈ r.cvs, Bcast (cfgOf e) as cvp.1 (.changeView cvp.1 x.h cvp.2 (cvp.2 + 1)) ∧
         Item.changeView cvp.1 x.h cvp.2 (cvp.2 + 1) ∈ (as.nodes cvp.1).known) ∧
       (∀ p, r.req = some p → ⟨x.h, x.v, p⟩ ∈ (as.nodes (e.primary x.h x.v)).myPreps ∧ TableOK e p x.h x.v (e.primary x.h x.v)) ∧
       (∀ j ∈ r.preps, PreparedAt as j x.h x.v) ∧
-      (∀ cm ∈ r.commits, cm.2.2 ∈ (as.nodes cm.2.1).myCommits ∧ cm.2.2.h = x.h)
+      (∀ cm ∈ r.commits, cm.2.2 ∈ (as.nodes cm.2.1).myCommits ∧ cm.2.2.h = x.h ∧ cm.2.2.v = cm.1)
 
 /-- claims stay true when the abstract state is extended -/
 theorem Claims.mono {e : Env} {as as' : State} {m : Pl} (h : Claims e as m)
@@ -80,7 +80,7 @@ structure RN (e : Env) (as : State) (i : Nat) (nd : Node) : Prop where
   prep : ∀ j m, slot nd.prep j = some m →
     m.hd = ⟨j, nd.bi, nd.view⟩ ∧ Claims e as m ∧ isPrep m = true ∧ (isReq m = true → j = nd.pidx)
   commit : ∀ j m, slot nd.commit j = some m →
-    ∃ x sb, m = .commit x sb ∧ x.frm = j ∧ x.h = nd.bi ∧ (sb ∈ (as.nodes j).myCommits ∧ sb.h = nd.bi)
+    ∃ x sb, m = .commit x sb ∧ x.frm = j ∧ x.h = nd.bi ∧ (sb ∈ (as.nodes j).myCommits ∧ sb.h = nd.bi ∧ sb.v = x.v)
   cv : ∀ j m, slot nd.cv j = some m → ∃ x r, m = .cv x r ∧ x.frm = j ∧ x.h = nd.bi ∧ Claims e as m
   lastCv : ∀ j m, slot nd.lastCv j = some m → ∃ x r, m = .cv x r ∧ x.frm = j ∧ x.h = nd.bi ∧ Claims e as m
   cache : ∀ h box, (h, box) ∈ nd.cache → ∀ km, (km ∈ box.prepare ∨ km ∈ box.chViews ∨ km ∈ box.commit) → Claims e as km.2
